@@ -44,14 +44,17 @@ FC == { <<w, "w", "w_after">> : w \in Writers } \cup
 At(x, suffix) == { t \in FC : t[1] = x /\ pc[x] = t[2] \o suffix }
 (* close() bodies: <<process, stage, label after, readMu held>> *)
 CC == { <<AC, "ac", "ac_done", FALSE>>, <<K, "k", "k_wg", FALSE>>, <<R, "rx", "r_rdunlock", TRUE>>, <<R, "rxf", "r_rdunlock", FALSE>>,
-        <<K, "kx", "k_rdunlock", TRUE>>, <<K, "kxf", "k_rdunlock", FALSE>> }
+        <<K, "kx", "k_rdunlock", TRUE>>, <<K, "kxf", "k_rdunlock", FALSE>>,
+        <<N, "n", "n_wg", FALSE>>, <<N, "nl", "nl_wg", FALSE>> }       \* CloseNow: close() whether it won casClosing or not
+Closers == {R, K, AC, N} \cap Procs                                             \* the processes that run close()
+CasProcs == {K, N} \cap Procs                                                   \* ... and casClosing / waitGoroutines
 InClose(x, suffix) == { t \in CC : t[1] = x /\ pc[x] = t[2] \o suffix }
 
 InitW == Init     \* WSConn's initial state, re-established at every TraceReset
 ResetConn ==
   /\ closed' = FALSE /\ closing' = FALSE /\ sentClose' = FALSE
   /\ lk' = [x \in Locks |-> "free"] /\ out' = <<>> /\ emitting' = "none" /\ inq' = <<>>
-  /\ pc' = [x \in Procs |-> CASE x = K -> "k_cas" [] x = R -> "r_lock" [] x = P -> "p_reg" [] x = AC -> "ac_idle" [] OTHER -> "w_msglock"]
+  /\ pc' = [x \in Procs |-> CASE x = K -> "k_cas" [] x = R -> "r_lock" [] x = P -> "p_reg" [] x = AC -> "ac_idle" [] x = N -> "n_cas" [] OTHER -> "w_msglock"]
   /\ pingActive' = FALSE /\ pongSig' = FALSE /\ peerDid' = {} /\ ret' = [x \in Procs |-> "none"]
   /\ tl' = "running" /\ wframe' = [w \in Writers |-> 1] /\ armedW' = "none" /\ cancelled' = {} /\ fired' = "none"
 
@@ -118,8 +121,8 @@ Mapped ==
          IF pc[q] # Pfx(q) \o "_hdr_in" THEN Stutter
          ELSE (IF q = R THEN Reader ELSE Closer) /\ pc'[q] = Pfx(q) \o "_rdunlock" /\ closed
     \* ---------------- Close / close() ----------------
-    [] e.ev \in {"CasClosingOK", "CasClosingFail"} -> pc[K] = "k_cas" /\ Stutter        \* placed by the silent step Pending
-    [] e.ev = "CloseEnter" /\ q \in {R, K, AC} ->
+    [] e.ev \in {"CasClosingOK", "CasClosingFail"} -> q \in CasProcs /\ pc[q] = (IF q = K THEN "k_cas" ELSE "n_cas") /\ Stutter   \* placed by the silent step Pending
+    [] e.ev = "CloseEnter" /\ q \in Closers ->
          \E t \in InClose(q, "_cl0") :
             IF t[4] THEN (IF q = R THEN Reader ELSE Closer) /\ pc'[q] = t[2] \o "_clA"
             ELSE IF q = AC THEN AsyncCloser /\ pc'[AC] = "ac_clA"
@@ -129,15 +132,15 @@ Mapped ==
     [] q = "TL" /\ e.ev = "ClosedPre" -> ~closed /\ Stutter
     [] q = "TL" /\ e.ev = "ClosedPost" -> IF win = "TL" THEN T5(K, "k") ELSE Stutter
     [] q = "TL" /\ e.ev # "TLExit" -> Stutter
-    [] e.ev = "CloseAlready" /\ q \in {R, K, AC} -> closed /\ \E t \in InClose(q, "_clA") : CmFlip(q, t[2])
+    [] e.ev = "CloseAlready" /\ q \in Closers -> closed /\ \E t \in InClose(q, "_clA") : CmFlip(q, t[2])
     \* rule R3: close(c.closed) happens somewhere between the lines ClosedPre and ClosedPost; the flip is placed by a silent step
-    [] e.ev = "ClosedPre" /\ q \in {R, K, AC} -> ~closed /\ InClose(q, "_clA") # {} /\ Stutter
-    [] e.ev = "ClosedPost" /\ q \in {R, K, AC} -> IF win = q THEN \E t \in InClose(q, "_clA") : CmFlip(q, t[2]) ELSE Stutter
-    [] e.ev = "ForceLock" /\ e.l = "wf" /\ q \in {R, K, AC} -> \E t \in InClose(q, "_cl1") : CmForceWf(q, t[2])
-    [] e.ev = "ForceLock" /\ e.l = "rd" /\ q \in {R, K, AC} -> \E t \in InClose(q, "_cl2") : CmForceRd(q, t[2], FALSE)
-    [] e.ev = "CloseExit" /\ q \in {R, K, AC} -> InClose(q, "_clZ") # {} /\ Stutter       \* closeMu is released after this line: silent
+    [] e.ev = "ClosedPre" /\ q \in Closers -> ~closed /\ InClose(q, "_clA") # {} /\ Stutter
+    [] e.ev = "ClosedPost" /\ q \in Closers -> IF win = q THEN \E t \in InClose(q, "_clA") : CmFlip(q, t[2]) ELSE Stutter
+    [] e.ev = "ForceLock" /\ e.l = "wf" /\ q \in Closers -> \E t \in InClose(q, "_cl1") : CmForceWf(q, t[2])
+    [] e.ev = "ForceLock" /\ e.l = "rd" /\ q \in Closers -> \E t \in InClose(q, "_cl2") : CmForceRd(q, t[2], FALSE)
+    [] e.ev = "CloseExit" /\ q \in Closers -> InClose(q, "_clZ") # {} /\ Stutter       \* closeMu is released after this line: silent
     \* waitGoroutines' last step, logged while it holds closeMu (so that "closeMu was free" is observed where it is true)
-    [] e.ev = "WgCloseMu" /\ q = K -> Stutter                                           \* placed by the silent step Pending
+    [] e.ev = "WgCloseMu" /\ q \in CasProcs -> Stutter                                   \* placed by the silent step Pending
     [] e.ev = "TLExit" -> TLExit
     \* ---------------- the peer (announced by the harness before the bytes are written) ----------------
     [] e.ev = "PeerSent" /\ e.a = OpPong -> SawOut("ping") /\ PeerAct("pong", "pong")
@@ -155,25 +158,29 @@ Consume == /\ l <= Len(Log) /\ l' = l + 1 /\ sil' = 0
            /\ late' = IF e.ev = "TraceReset" THEN {} ELSE IF e.ev = "LockBegin" THEN (IF cpost THEN late \cup {e.g} ELSE late \ {e.g}) ELSE late
            /\ skip' = IF e.ev = "TraceReset" THEN FALSE ELSE (skip \/ R3Reorder \/ e.ev = "Aborted")   \* Aborted: the harness gave up on the scenario
            /\ nskip' = IF e.ev # "TraceReset" /\ ~skip /\ R3Reorder THEN nskip + 1 ELSE nskip
-           /\ win' = IF e.ev = "TraceReset" THEN "none" ELSE IF e.ev = "ClosedPre" /\ q \in {R, K, AC, "TL"} THEN q ELSE IF e.ev = "ClosedPost" /\ win = q THEN "none" ELSE win
-           /\ rel' = IF e.ev = "TraceReset" THEN {} ELSE IF e.ev \in {"CloseExit", "CloseAlready"} /\ q \in {R, K, AC} THEN rel \cup {q} ELSE rel
+           /\ win' = IF e.ev = "TraceReset" THEN "none" ELSE IF e.ev = "ClosedPre" /\ q \in Closers \cup {"TL"} THEN q ELSE IF e.ev = "ClosedPost" /\ win = q THEN "none" ELSE win
+           /\ rel' = IF e.ev = "TraceReset" THEN {} ELSE IF e.ev \in {"CloseExit", "CloseAlready"} /\ q \in Closers THEN rel \cup {q} ELSE rel
            /\ gm' = IF e.ev = "TraceReset" THEN <<>>
                     ELSE IF e.ev = "Actor" THEN [x \in DOMAIN gm \cup {e.g} |-> IF x = e.g THEN e.s ELSE gm[x]]
                     ELSE IF IsAC THEN [x \in DOMAIN gm \cup {e.g} |-> IF x = e.g THEN AC ELSE gm[x]]
                     ELSE IF e.ev = "TLStart" THEN [x \in DOMAIN gm \cup {e.g} |-> IF x = e.g THEN "TL" ELSE gm[x]] ELSE gm
-           /\ (q = K /\ ~skip /\ e.ev # "TraceReset") => pend = "none"        \* K's pending step comes before K's next line
-           /\ pend' = IF e.ev = "TraceReset" THEN "none"
-                      ELSE IF skip \/ R3Reorder THEN pend
-                      ELSE IF q = K /\ e.ev \in {"CasClosingOK", "CasClosingFail"} THEN e.ev
-                      ELSE IF q = K /\ e.ev = "WgCloseMu" /\ pc[K] \in {"k_wg", "kl_wg"} THEN e.ev ELSE pend
+           /\ (q \in CasProcs /\ ~skip /\ e.ev # "TraceReset") => pend[q] = "none"        \* a pending step comes before its process's next line
+           /\ pend' = IF e.ev = "TraceReset" THEN [x \in CasProcs |-> "none"]
+                      ELSE IF skip \/ R3Reorder \/ q \notin CasProcs THEN pend
+                      ELSE IF e.ev \in {"CasClosingOK", "CasClosingFail"} THEN [pend EXCEPT ![q] = e.ev]
+                      ELSE IF e.ev = "WgCloseMu" /\ pc[q] \in {"k_wg", "kl_wg", "n_wg", "nl_wg"} THEN [pend EXCEPT ![q] = e.ev] ELSE pend
            /\ IF (skip \/ R3Reorder) /\ e.ev # "TraceReset" THEN Stutter ELSE Mapped
 
 NextIs(S) == l <= Len(Log) /\ Log[l].ev \in S
 (* steps the code takes without a hook *)
-PendingStep == CASE pend = "CasClosingOK" -> Cas(K, "k_cas", "k1_wflock", "kl_wg") /\ pc'[K] = "k1_wflock"
-                 [] pend = "CasClosingFail" -> Cas(K, "k_cas", "k1_wflock", "kl_wg") /\ pc'[K] = "kl_wg"
-                 [] pend = "WgCloseMu" -> IF pc[K] = "k_wg" THEN WaitGor(K, "k_wg", "k_done", "returned") ELSE WaitGor(K, "kl_wg", "k_done", "errClosed")
-                 [] OTHER -> FALSE
+PendingStep(x) ==
+   CASE pend[x] = "CasClosingOK" -> IF x = K THEN Cas(K, "k_cas", "k1_wflock", "kl_wg") /\ pc'[K] = "k1_wflock"
+                                    ELSE CloseNower /\ pc[N] = "n_cas" /\ pc'[N] = "n_cl0"
+     [] pend[x] = "CasClosingFail" -> IF x = K THEN Cas(K, "k_cas", "k1_wflock", "kl_wg") /\ pc'[K] = "kl_wg"
+                                      ELSE CloseNower /\ pc[N] = "n_cas" /\ pc'[N] = "nl_cl0"
+     [] pend[x] = "WgCloseMu" -> IF x = K THEN (IF pc[K] = "k_wg" THEN WaitGor(K, "k_wg", "k_done", "returned") ELSE WaitGor(K, "kl_wg", "k_done", "errClosed"))
+                                 ELSE (IF pc[N] = "n_wg" THEN WaitGor(N, "n_wg", "n_done", "returned") ELSE WaitGor(N, "nl_wg", "n_done", "errClosed"))
+     [] OTHER -> FALSE
 SilentStep ==
           /\ \/ KPre /\ UNCHANGED <<win, rel>>
              \/ win \notin {"none", "TL"} /\ win' = "none" /\ UNCHANGED rel /\ \E t \in InClose(win, "_clA") : CmFlip(win, t[2])
@@ -191,14 +198,14 @@ SilentStep ==
              \/ /\ UNCHANGED <<win, rel>> /\ l <= Len(Log) /\ e.ev = "UnlockPre" /\ e.l = "rd" /\ q \in {R, K} /\ closed
                 /\ pc[q] = Pfx(q) \o "_hdr_in" /\ (IF q = R THEN Reader ELSE Closer) /\ pc'[q] = Pfx(q) \o "_rdunlock"
              \/ UNCHANGED <<win, rel>> /\ \E w \in Writers : pc[w] = "w_after" /\ wframe[w] < FramesOf[w] /\ ~closed /\ WNext(w)   \* Writer.Close after Writer.Write
-             \/ UNCHANGED <<win, rel>> /\ \E x \in {R, K, AC} : \E t \in InClose(x, "_cl1") : ~Client /\ CmForceWf(x, t[2])             \* a server's close() takes no frame lock
+             \/ UNCHANGED <<win, rel>> /\ \E x \in Closers : \E t \in InClose(x, "_cl1") : ~Client /\ CmForceWf(x, t[2])             \* a server's close() takes no frame lock
              \/ UNCHANGED <<win, rel>> /\ \E x \in {R, K} : \E t \in InClose(x, "_cl2") : t[4] /\ CmForceRd(x, t[2], TRUE)          \* closeWith(true): readMu is already held
 
 Silent == /\ ~skip /\ sil < 4 /\ sil' = sil + 1 /\ UNCHANGED <<l, gm, cpost, late, skip, nskip>>
-          /\ \/ pend # "none" /\ pend' = "none" /\ UNCHANGED <<win, rel>> /\ PendingStep
+          /\ \/ \E x \in CasProcs : pend[x] # "none" /\ pend' = [pend EXCEPT ![x] = "none"] /\ UNCHANGED <<win, rel>> /\ PendingStep(x)
              \/ UNCHANGED pend /\ SilentStep
 
-TInit == Init /\ l = 1 /\ gm = <<>> /\ sil = 0 /\ win = "none" /\ rel = {} /\ cpost = FALSE /\ late = {} /\ skip = FALSE /\ nskip = 0 /\ pend = "none" /\ TLCSet(1, 1) /\ TLCSet(3, 0)
+TInit == Init /\ l = 1 /\ gm = <<>> /\ sil = 0 /\ win = "none" /\ rel = {} /\ cpost = FALSE /\ late = {} /\ skip = FALSE /\ nskip = 0 /\ pend = [x \in CasProcs |-> "none"] /\ TLCSet(1, 1) /\ TLCSet(3, 0)
 TNext == Consume \/ Silent
 HW == TLCSet(1, IF TLCGet(1) < l THEN l ELSE TLCGet(1)) /\ (l = Len(Log) + 1 => TLCSet(3, nskip))
 Accepted == IF TLCGet(1) = Len(Log) + 1 THEN PrintT(<<"R3-SKIPPED", TLCGet(3)>>)
